@@ -13,7 +13,7 @@ Definition subs_id (t : Z) : list (list Z) := map (fun k => [Z.of_nat k; t; 0; t
 (* text 0 = "Sure!\n```json\n{...}\n```": strict parsing fails, pattern 0 extracts text 1,
    which loads to value 0, which validates to instance 0 *)
 Definition tab_fenced : otab :=
-  mkOTab [[0; 0]; [1; 1]] [[0; 1; 0]; [1; 0; 0]] [[0; 0; 0; 1]] [] [] [[0; 0; 0]] [] [] 0.
+  mkOTab [[0; 0]; [1; 1]] [[0; 1; 0]; [1; 0; 0]] [[0; 0; 0; 1]] [] [] [[0; 0; 0; 0]] [] [] 0.
 Definition O_fenced := oracles_of tab_fenced.
 
 Example ex_valid_by_extraction :
@@ -67,7 +67,7 @@ Proof. do 3 eexists. split; [vm_compute; reflexivity|]. vm_compute. repeat split
 (* LENIENT with two coercions: confidence 0.85 - 2*0.05 = 3/4 *)
 Definition tab_lenient : otab :=
   mkOTab [[0; 0]] [[0; 0; 0]] (map (fun k => [Z.of_nat k; 0; 0]) (seq 0 5)) []
-         [[0; 0; 1; 7; 8]] [[0; 2; 0]; [1; 0; 5]] [] [] 0.
+         [[0; 0; 0; 1; 7; 8]] [[0; 0; 2; 0]; [0; 1; 0; 5]] [] [] 0.
 Example ex_lenient :
   exists r st l,
     fold_enhanced numQ (oracles_of tab_lenient) cfg [] [] 0 stats0 = (Ret r, st, l) /\
@@ -79,7 +79,7 @@ Proof. do 3 eexists. split; [vm_compute; reflexivity|]. vm_compute. repeat split
 Definition tab_repair : otab :=
   mkOTab [[0; 0]] [[0; 1; 0]; [2; 0; 0]] []
          ([[0; 0; 0; 1]; [1; 1; 0; 1]; [2; 1; 0; 2]] ++ map (fun k => [Z.of_nat k; 2; 0; 2]) (seq 3 7))
-         [] [[0; 0; 9]] [] [] 0.
+         [] [[0; 0; 0; 9]] [] [] 0.
 Example ex_repair :
   exists r st l,
     fold_enhanced numQ (oracles_of tab_repair) cfg [] [REPAIR] 0 stats0 = (Ret r, st, l) /\
@@ -88,7 +88,7 @@ Example ex_repair :
 Proof. do 3 eexists. split; [vm_compute; reflexivity|]. vm_compute. repeat split. Qed.
 
 (* the hypotheses of c11_strict_first_verbatim are satisfiable *)
-Definition tab_clean : otab := mkOTab [[0; 1]] [[1; 0; 2]] [] [] [] [[2; 0; 3]] [] [] 0.
+Definition tab_clean : otab := mkOTab [[0; 1]] [[1; 0; 2]] [] [] [] [[0; 2; 0; 3]] [] [] 0.
 Example ex_strict_first :
   has_co cfg = false /\ effective [] [STRICT; REPAIR] = STRICT :: [REPAIR] /\
   o_strip (oracles_of tab_clean) 0 = Ret 1 /\ o_loads (oracles_of tab_clean) 1 = Ret 2 /\
@@ -108,3 +108,39 @@ Proof. vm_compute. repeat split. Qed.
 (* callbacks_return holds for a configuration without callbacks *)
 Example ex_callbacks_return : callbacks_return O_garbage cfg 0.
 Proof. split; intros H; discriminate H. Qed.
+
+(* a history on one object: the same text probed with [EXTRACTION] only (invalid), then
+   folded with the default order (valid by STRICT, confidence 1), then plain fold; a
+   co-chaperone registered afterwards changes what later calls see; reset zeroes counters.
+   Text 0 strips to itself, loads to value 0, validates (schema 0) to instance 0;
+   findall finds nothing in it. *)
+Definition tab_hist : otab :=
+  mkOTab [[0; 0]; [5; 5]] [[0; 0; 0]; [5; 1; 0]] (map (fun k => [Z.of_nat k; 0; 0]) (seq 0 5)) []
+         [] [[0; 0; 0; 0]] [] [[9; 0; 0; 5]] 0.
+Definition B_hist := base_of [5; 10; 0] tab_hist.
+Definition ops_hist := [HFoldEnhanced 0 0 [EXTRACTION]; HFoldEnhanced 0 0 []; HFold 0 0 [];
+                        HRegister 0 9; HFoldEnhanced 0 0 [STRICT]; HReset].
+
+Definition hsum (o : hout numQ) : list Z :=
+  match o with
+  | OPlain (Ret r) l => [0; if p_valid r then 1 else 0; Z.of_nat (length l)] ++ oz (p_structure r)
+  | OEnh (Ret r) l => [1; if e_valid r then 1 else 0; Z.of_nat (length l)] ++ oz (e_structure r)
+                        ++ [match e_strategy r with Some x => strategy_code x | None => -1 end] ++ q_obs (e_conf r)
+  | ONone => [2]
+  | _ => [-1]
+  end.
+
+Example ex_history :
+  map hsum (run_hist numQ B_hist [] (mkCS stats0 []) ops_hist) =
+  [ [1; 0; 5; 0; 0; -1; 0; 1];        (* [EXTRACTION] only: invalid, confidence 0 *)
+    [1; 1; 3; 1; 0; 0; 1; 1];         (* default order, same text, same object: STRICT, confidence 1 *)
+    [0; 1; 3; 1; 0];                  (* plain fold agrees *)
+    [2];
+    [1; 0; 3; 0; 0; -1; 0; 1];        (* the co-chaperone registered meanwhile rewrites the text *)
+    [2] ].
+Proof. vm_compute. reflexivity. Qed.
+
+Example ex_history_counters :
+  let s := fold_left (fun s op => fst (hstep numQ B_hist [] s op)) (firstn 5 ops_hist) (mkCS stats0 []) in
+  st_total (cs_stats s) = 4 /\ st_successful (cs_stats s) = 2 /\ st_attempts (cs_stats s) STRICT = 3 /\ lookup_co (cs_reg s) 0 = Some 9.
+Proof. vm_compute. repeat split. Qed.
